@@ -18,6 +18,7 @@ from collections import Counter
 
 from .. import c07_gen as G
 from .. import c07_hir as H
+from .. import c07_oracle as O
 from .. import dl, engine_tie, gen_dl, lib, prog
 
 PROP = "C07"
@@ -66,7 +67,15 @@ def gen_cases(tier, seed):
             names = G.adversarialize(rng, p, k)
         ninp = rng.choice([2, 2, 3])
         inputs = [gen_dl.gen_input(rng, p["rels"], style=rng.choice(["small", "small", "mixed", "mixed", "sparse_chain", "dense"]))[0] for _ in range(ninp)]
-        cases.append(dict(id="c07_%d" % k, prog=p, inputs=inputs, adversarial=names))
+        # every 5th program: a rule whose SECOND clause repeats a variable bound by the FIRST (both occurrences are index
+        # columns, nothing is desugared), with inputs where the two columns differ and the relative sizes go both ways
+        jr = None
+        if k % 5 == 2 and not names:
+            rng2 = lib.rng_for(seed, PROP, "joinrepeat%d" % k)
+            jr = G.add_join_repeat(rng2, p)
+            if jr:
+                inputs = G.join_repeat_inputs(rng2, p, jr)
+        cases.append(dict(id="c07_%d" % k, prog=p, inputs=inputs, adversarial=names, join_repeat=jr))
     return cases
 
 
@@ -354,8 +363,19 @@ def compare(c, stats):
             mism.append(dict(case=cs, impl=dict(sugared=i1), model=dict(desugared_model=D[k]), spec=dict(hand_expansion=i2, surface=S[k]), kind="impl_violates_spec", known=known,
                              what="the sugared program and its documented core expansion compute different relations (%s)" % first_diff(i1, i2, rels)))
         elif i1 != S[k]:
-            mism.append(dict(case=cs, impl=dict(sugared=i1, hand_expansion=i2), model=dict(surface=S[k]), spec=None, kind="model_differs", known=None,
-                             what="Surface.v direct denotation disagrees with the macro on both the sugared and the hand-expanded program (%s)" % first_diff(i1, S[k], rels)))
+            # sugared = hand expansion (both through the real macro) but not the Coq direct denotation: the independent
+            # python oracle says which side is wrong
+            try:
+                orc = O.evaluate(p, inp)
+            except O.Fuel:
+                orc = None
+            if orc == S[k]:
+                mism.append(dict(case=cs, impl=dict(sugared=i1, hand_expansion=i2), model=dict(desugared_model=D[k]), spec=dict(surface_coq=S[k], python_oracle=orc), kind="impl_violates_spec", known=known,
+                                 what="the sugared program (and its hand expansion through the same macro alike) computes relations different from the specification = Coq direct denotation = python oracle (%s)" % first_diff(i1, S[k], rels)))
+            else:
+                mism.append(dict(case=cs, impl=dict(sugared=i1, hand_expansion=i2), model=dict(surface=S[k]), spec=dict(python_oracle=orc), kind="model_differs", known=None,
+                                 what="Surface.v direct denotation disagrees with the macro on both the sugared and the hand-expanded program and with the python oracle (%s)" % first_diff(i1, S[k], rels)))
+
         if capture and i1 == i2:
             stats["capture_not_manifest_in_rustc_process"] += 1
     return mism
@@ -380,6 +400,10 @@ def tie(tier, seed, replay):
         for f, n in c["feats"].items():
             feats[f] += n
             progs_with[f] += 1
+        njr = G.count_join_repeat(c["prog"])
+        if njr:
+            feats["second_clause_repeats_var_of_first"] += njr
+            progs_with["second_clause_repeats_var_of_first"] += 1
         if c.get("adversarial"):
             progs_with["adversarial_names"] += 1
             for nm in c["adversarial"]:
